@@ -67,6 +67,7 @@ def run(ctx, rep):
                 if hit:
                     sw = bi
                     break
+        ctx.cache['r10_sw'] = sw
         ctor = [(b, t) for b, t in FS.calls() if (t.get('callee') or '').endswith('DiskSlice::from_sectors')]
         if len(ctor) != 1:
             rep.machinery('ANCHOR fat_slice: DiskSlice::from_sectors call')
@@ -96,7 +97,8 @@ def run(ctx, rep):
                     if 'reserved_sectors' not in calls(first):
                         probs.append('with mirroring enabled the slice does not start right after the reserved sectors')
                 else:
-                    if ('const', 1) not in mirrors or ('field', 'fats') in mirrors:
+                    # (the exact count - constructor argument composed with the loop's own convention - is R10.7)
+                    if ('field', 'fats') in mirrors or not any(tk[0] == 'const' for tk in mirrors):
                         probs.append('with mirroring disabled more than the one active copy is written')
                     if not {'active_fat', 'sectors_per_fat', 'reserved_sectors'} <= calls(first):
                         probs.append('with mirroring disabled the slice start is not reserved + active_fat * '
@@ -279,3 +281,155 @@ def run(ctx, rep):
             rep.violation('R10.4', vkey('R10.4', AC.name, 'hint-clamp', ''), AC.loc(AC.span),
                           'the next-free hint is not clamped to valid cluster numbers (strictly below total_clusters + '
                           '2): %s; a padding entry past the last cluster can be handed out' % why)
+
+
+# ---------------------------------------------------------------------------------------------
+# R10.6  entries are stored only through the merging writer: `set_raw` overwrites the whole stored word (FAT32: the reserved
+#        nibble; FAT12: the neighbour's nibble is handled one level further down), so only `set` of the same width - which reads
+#        the old word back and keeps what must be kept (X4 / X9) - may call it
+
+def run_raw_writers(ctx, rep):
+    facts = ctx.facts
+    n = 0
+    for fn in facts.fns.values():
+        if fn.crate != 'fatfs':
+            continue
+        for b, t in fn.calls():
+            callee = t.get('callee') or ''
+            if not callee.endswith('::set_raw') or 'FatTrait' not in callee:
+                continue
+            n += 1
+            is_set = fn.name.endswith('::set') and (getattr(fn, 'impl_trait', None) == 'fatfs::table::FatTrait' or
+                                                   fn.name.startswith('fatfs::table::FatTrait::'))
+            same = callee[:-len('set_raw')]
+            ok = is_set and (callee.startswith('fatfs::table::FatTrait::') or fn.name == same + 'set')
+            rep.oblige('R10.6', '%s|%s' % (fn.name, callee), ok=ok, nontrivial=True,
+                       sample={'caller': fn.name, 'callee': callee, 'at': fn.loc(t['span'])})
+            if not ok:
+                rep.violation('R10.6', vkey('R10.6', fn.name, 'raw-writer', callee), fn.loc(t['span']),
+                              '%s stores a FAT entry with %s, bypassing `set` of that width: the whole stored word is '
+                              'overwritten, so bits the format reserves (the top nibble of a FAT32 entry) are not preserved' %
+                              (fn.name, callee))
+    rep.counts['R10.6.sites'] = n
+
+
+# ---------------------------------------------------------------------------------------------
+# R10.7  how many copies a slice writes = (what the constructor is given) composed with (how the write loop counts):
+#        `fats` copies with mirroring, exactly one otherwise (active FAT only; the fixed root directory)
+
+def _affine(fn, blocks, o, depth=0):
+    """value of an operand as a * bpb.fats + b over the definitions inside `blocks`, or None"""
+    c = op_const(o)
+    if c is not None:
+        return (0, c['val']) if c.get('val') is not None else None
+    p = op_place(o)
+    if p is None or depth > 14:
+        return None
+    names = [e.get('n') for e in p['p'] if 'f' in e]
+    if names[-1:] == ['fats']:
+        return (1, 0)
+    defs = []
+    for bi in blocks:
+        for s_ in fn.blocks[bi]['stmts']:
+            if s_['k'] == 'assign' and not s_['lhs']['p'] and s_['lhs']['l'] == p['l']:
+                defs.append(s_['rv'])
+    if len(defs) != 1:
+        return None
+    rv = defs[0]
+    if p['p']:
+        idx = [e.get('f') for e in p['p'] if 'f' in e]
+        if len(idx) != 1:
+            return None
+        if rv['k'] == 'agg' and rv.get('ak') == 'tuple' and idx[0] < len(rv['ops']):
+            return _affine(fn, blocks, rv['ops'][idx[0]], depth + 1)
+        if rv['k'] == 'binop' and rv['op'].endswith('WithOverflow') and idx[0] == 0:
+            return _affine_binop(fn, blocks, rv, depth)
+        return None
+    if rv['k'] in ('use', 'cast'):
+        return _affine(fn, blocks, rv['a'], depth + 1)
+    if rv['k'] == 'binop':
+        return _affine_binop(fn, blocks, rv, depth)
+    return None
+
+
+def _affine_binop(fn, blocks, rv, depth):
+    op = rv['op'].replace('WithOverflow', '').replace('Unchecked', '')
+    if op not in ('Add', 'Sub'):
+        return None
+    x, y = _affine(fn, blocks, rv['a'], depth + 1), _affine(fn, blocks, rv['b'], depth + 1)
+    if x is None or y is None:
+        return None
+    return (x[0] + y[0], x[1] + y[1]) if op == 'Add' else (x[0] - y[0], x[1] - y[1])
+
+
+def run_copies(ctx, rep):
+    facts = ctx.facts
+    W = facts.fns.get(DS_WRITE)
+    if W is None:
+        return
+    # how the loop counts: 0..mirrors writes `mirrors` copies, 0..=mirrors one more
+    extra = None
+    for b, t in W.calls():
+        if not (t.get('callee') or '').endswith('IntoIterator::into_iter') or not t['args']:
+            continue
+        ap = op_place(t['args'][0])
+        if ap is None or ap['p']:
+            continue
+        for bi in W.reachable():
+            for s_ in W.blocks[bi]['stmts']:
+                if s_['k'] == 'assign' and not s_['lhs']['p'] and s_['lhs']['l'] == ap['l'] and s_['rv']['k'] == 'agg' and \
+                        (s_['rv'].get('adt') or '').endswith('ops::range::Range') and len(s_['rv']['ops']) == 2:
+                    c0 = op_const(s_['rv']['ops'][0])
+                    p1 = op_place(s_['rv']['ops'][1])
+                    if c0 is not None and c0.get('val') == 0 and p1 is not None and ('field', 'mirrors') in Deps(W).of_operand(s_['rv']['ops'][1]):
+                        extra = 0
+            tt = W.blocks[bi]['term']
+            if tt['k'] == 'call' and not tt['dest']['p'] and tt['dest']['l'] == ap['l'] and \
+                    (tt.get('callee') or '').endswith('RangeInclusive::new') and len(tt['args']) == 2:
+                c0 = op_const(tt['args'][0])
+                if c0 is not None and c0.get('val') == 0 and ('field', 'mirrors') in Deps(W).of_operand(tt['args'][1]):
+                    extra = 1
+    if extra is None:
+        rep.counts['R10.7.undecided'] = 1  # the loop is not a `for i in 0..n` / `0..=n` over self.mirrors: R10.3 alone judges it
+        rep.oblige('R10.7', DS_WRITE + '|loop-form', ok=True, sample={'fn': DS_WRITE, 'note': 'loop form not recognised; count not decided'})
+        return
+    n = 0
+    for fn in facts.fns.values():
+        if fn.crate != 'fatfs':
+            continue
+        sites = [(b, t) for b, t in fn.calls() if (t.get('callee') or '').endswith('DiskSlice::from_sectors') and len(t['args']) > 2]
+        for b, t in sites:
+            arms = [('any', set(fn.reachable()), None)]
+            if fn.name == FAT_SLICE and ctx.cache.get('r10_sw') is not None:
+                sw = ctx.cache['r10_sw']
+                tt = fn.blocks[sw]['term']
+                arms = [('mirroring', arm_blocks(fn, sw, nonzero_targets(tt)), (1, 0)),
+                        ('single', arm_blocks(fn, sw, zero_targets(tt)), (0, 1))]
+            for arm, blocks, want in arms:
+                v = _affine(fn, blocks, t['args'][2])
+                if v is None:
+                    rep.oblige('R10.7', '%s|bb%d|%s' % (fn.name, b, arm), ok=True, sample={'fn': fn.name, 'arm': arm, 'copies': 'not an affine function of bpb.fats'})
+                    continue
+                copies = (v[0], v[1] + extra)
+                if want is None:
+                    want = (0, 1)  # any other slice (the fixed root directory) is one region
+                ok = copies == want
+                n += 1
+                fmt = lambda c: ('fats%+d' % c[1] if c[1] else 'fats') if c[0] == 1 else ('%d*fats%+d' % c if c[0] else '%d' % c[1])
+                rep.oblige('R10.7', '%s|bb%d|%s' % (fn.name, b, arm), ok=ok, nontrivial=True,
+                           sample={'fn': fn.name, 'arm': arm, 'copies_written': fmt(copies), 'wanted': fmt(want)})
+                if not ok:
+                    rep.violation('R10.7', vkey('R10.7', fn.name, 'copies', arm), fn.loc(t['span']),
+                                  '%s (%s): the slice is constructed with mirrors = %s and the write loop of DiskSlice runs %s '
+                                  'times, so %s copies are written where the format wants %s' %
+                                  (fn.name, arm, fmt(v), 'mirrors + 1' if extra else 'mirrors', fmt(copies), fmt(want)))
+    rep.counts['R10.7.sites'] = n
+
+
+_run_r10 = run
+
+
+def run(ctx, rep):
+    _run_r10(ctx, rep)
+    run_raw_writers(ctx, rep)
+    run_copies(ctx, rep)
